@@ -219,6 +219,8 @@ def fam_named_fields(quick):
         td = TypeDef("X", "struct", "named", [
             Field("Option<i32>", "a", [fattr]), Field("i32", "b"), Field("Option<St>", "c", [fattr]),
             Field("Option<Option<i32>>", "d", [fattr]) if False else Field("Vec<Option<i32>>", "d"),
+            # not an Option (serde writes null for None, always): transparent wrappers around one
+            Field("Box<Option<i32>>", "e"), Field("Box<Option<St>>", "f"), Field("Box<Box<Option<bool>>>", "g"), Field("Option<Box<Option<i32>>>", "h", [fattr]),
         ], attrs=[cattr])
         out.append(one({"family": "optional-fields", "mode": lbl}, td))
     return out
